@@ -184,14 +184,18 @@ def run(pid, tier, seed):
             if not evs:
                 rep.note_drift("no YearWalk events recorded for a year-less file (hooks missing?)")
                 continue
-            if any(is_feb29(x) for x in w["locs"]):
-                continue
             nyears = (time.gmtime(w["locs"][-1]).tm_year - time.gmtime(w["locs"][0]).tm_year) + 5
+
+            def read_in(t, y):
+                # a February 29 read with a year that is not a leap year belongs to the latest leap year not after it
+                if t.tm_mon == 2 and t.tm_mday == 29:
+                    while not calendar.isleap(y):
+                        y -= 1
+                return calendar.timegm((y, t.tm_mon, t.tm_mday, t.tm_hour, t.tm_min, t.tm_sec, 0, 0, 0)) - w["tz_min"] * 60
             tab = []
             for x in w["locs"]:
                 t = time.gmtime(x)
-                tab.append([calendar.timegm((w["y0"] - j, t.tm_mon, t.tm_mday, t.tm_hour, t.tm_min, t.tm_sec, 0, 0, 0)) - w["tz_min"] * 60
-                            for j in range(nyears)])
+                tab.append([read_in(t, w["y0"] - j) for j in range(nyears)])
             recs.append({"ev": "Reset", "n": len(w["locs"]), "fos": w["fos"], "abs": tab, "A": w["A"], "year": 0, "fo": 0, "ds": 0, "why": 0})
             for e in evs:
                 recs.append({"ev": e["ev"], "n": 0, "fos": [], "abs": [], "A": 0, "year": (e.get("year", w["y0"]) - w["y0"]) if "year" in e else 0,
